@@ -130,7 +130,11 @@ class IffChunk(object):
         """Read the chunks data"""
 
         self._fileobj.seek(self.data_offset)
-        return self._fileobj.read(self.data_size)
+        try:
+            return self._fileobj.read(self.data_size)
+        except (OverflowError, MemoryError):
+            # e.g. a 64 bit size read() can't take
+            raise InvalidChunk("Invalid chunk size: %d" % self.data_size)
 
     def write(self, data: bytes) -> None:
         """Write the chunk data"""
